@@ -885,4 +885,42 @@ theorem rm_lookup_error_no_load (s s' : RM.St) (t : Tid) (x : Nat) (hpc : s.pc t
 example : ((RM.run (RM.init .doTake) ([(0,2)] ++ List.replicate 9 (0,0))).bind fun s => RM.step s 0 1).map
     (fun s => (s.pc 0, s.tmp 0, s.ncreate 2)) = some (.m2, 0, 0) := by decide
 
+
+/-! ### Round 5: who a blocked `GetResource` / `Take` call waits for (RM had no such statement before)
+
+Full statement (as `sf_keys_independent` for SingleFlight): a blocked caller waits only for the holder of a mutex — who
+exists and is enabled — or for the unfinished leader of a flight of its OWN key.  Proven here: the case split, that every
+goroutine inside a critical section (flight-group mutex, write lock, read lock) is enabled, and that a caller blocked in
+`Wait` waits for a published flight of its own key.  MISSING for the full statement: `s.lock = some u → (s.pc u).holdsLock`
+and `s.rw = some u → s.pc u ∈ {g7, g8}` (the converse directions of `Inv.lock` / `Inv.writer`) are not part of RM's
+invariant, so the existence of the enabled holder is not derived — hence `_partial`. -/
+theorem rm_blocked_cases {s : RM.St} {t : Tid} {x : Nat} (hb : RM.step s t x = none) :
+    ((s.pc t = .l0 ∨ s.pc t = .d0) ∧ s.lock ≠ none) ∨ (s.pc t = .w1 ∧ s.wg (s.reg t) ≠ 0) ∨
+    ((s.pc t = .p0 ∨ s.pc t = .g0) ∧ s.rw ≠ none) ∨ (s.pc t = .g6 ∧ ¬(s.rw = none ∧ s.nrd = 0)) := by
+  unfold RM.step at hb
+  split at hb <;> (try split at hb) <;> simp_all
+
+theorem rm_critical_section_enabled (s : RM.St) (u : Tid) (y : Nat)
+    (hu : (s.pc u).holdsLock = true ∨ s.pc u = .g7 ∨ s.pc u = .g8 ∨ s.pc u = .p1 ∨ s.pc u = .p2 ∨ s.pc u = .g1 ∨ s.pc u = .g2) :
+    (RM.step s u y).isSome = true := by
+  unfold RM.step
+  rcases hu with hu | hu | hu | hu | hu | hu | hu
+  · revert hu; cases hpc : s.pc u <;> simp [RM.PC.holdsLock] <;> (try split) <;> simp
+  all_goals (rw [hu]; simp)
+
+theorem rm_keys_independent_partial {s : RM.St} (h : RM.Reach s) (t : Tid) (x : Nat) (hb : RM.step s t x = none)
+    (hw : s.pc t = .w1) : s.wg (s.reg t) ≠ 0 ∧ s.ekey (s.reg t) = s.key t ∧ RM.published s (s.reg t) := by
+  have hc := rm_blocked_cases hb
+  have hwt := (RM.inv_reach h).waits t (by rw [hw]; rfl)
+  refine ⟨?_, hwt.2.1, hwt.2.2⟩
+  rcases hc with hc | hc | hc | hc
+  · rcases hc.1 with h1 | h1 <;> rw [hw] at h1 <;> cases h1
+  · exact hc.2
+  · rcases hc.1 with h1 | h1 <;> rw [hw] at h1 <;> cases h1
+  · have h1 := hc.1; rw [hw] at h1; cases h1
+
+/-- non-vacuity: goroutine 1 joined goroutine 0's flight on key 2 and is blocked in `Wait` while `create` runs. -/
+example : (RM.run (RM.init .getResource) (rmDemo.take 16)).map (fun s => (s.pc 1, (RM.step s 1 0).isSome, decide (s.key 1 = s.key 0)))
+    = some (.w1, false, true) := by decide
+
 end GoZero.C07
